@@ -45,3 +45,50 @@ Print Assumptions C09_hqwt_pfs.
 Theorem C09_estimate_can_exceed_exact : pfs_val above_D 0 2048 = 2048 /\ countN 0 (firstnN 2048 above_D) = 2047 /\ 2048 < pfs_bound above_D.
 Proof. exact pfs_val_above_rank. Qed.
 Print Assumptions C09_estimate_can_exceed_exact.
+
+(* ---- rank_prefetch / rank_prefetch_unchecked of the types WITHOUT prefetch support (QWT256 / QWT512) REGENERATED from
+   src/quadwt/mod.rs on every run (T5, Gen/FnsQwtnew.v: the estimation loop over the levels with its `Range`, the arguments of
+   every prefetch call evaluated with their checked arithmetic and index checks, then rank_unchecked): the estimation phase
+   never faults and has no effect, so on every tree — also one built by the regenerated constructors — rank_prefetch is rank,
+   for every symbol and every position. *)
+From QwtModel Require Import Loops FnsQwt FnsQwtnew FnsQwtOk FnsWrapQwtOk FnsQwtPrefetchOk.
+Theorem C09_source_plain_256 : forall k w s, width_ok w -> Forall (fun x => x < 2 ^ w) s ->
+  len s < RSQ_MAXN ->
+  exists n nl sg d p sb sm oc,
+    qwt256_ctor k w s = Val (n, nl, sg, d, p, sb, sm, oc) /\
+    (forall c i, c < 2 ^ w ->
+       g_qwt256_rank_prefetch w n nl sg d sb oc c i
+       = Val (if negb (len s =? 0) && (i <=? len s) && (c <=? maxN s) then Some (rank_spec s c i) else None) /\
+       g_qwt256_rank_prefetch w n nl sg d sb oc c i = g_qwt256_rank w n nl sg d sb oc c i) /\
+    (forall c i, i <= len s ->
+       g_qwt256_rank_prefetch_unchecked w nl d sb oc c i = g_qwt256_rank_unchecked w nl d sb oc c i) /\
+    (forall c i, 0 < len s -> c <= maxN s -> i <= len s ->
+       g_qwt256_rank_prefetch_unchecked w nl d sb oc c i = Val (rank_spec s c i)).
+Proof. exact g_qwt256_ctors_rank_prefetch. Qed.
+Print Assumptions C09_source_plain_256.
+Theorem C09_source_plain_512 : forall k w s, width_ok w -> Forall (fun x => x < 2 ^ w) s ->
+  len s < RSQ_MAXN ->
+  exists n nl sg d p sb sm oc,
+    qwt512_ctor k w s = Val (n, nl, sg, d, p, sb, sm, oc) /\
+    (forall c i, c < 2 ^ w ->
+       g_qwt512_rank_prefetch w n nl sg d sb oc c i
+       = Val (if negb (len s =? 0) && (i <=? len s) && (c <=? maxN s) then Some (rank_spec s c i) else None) /\
+       g_qwt512_rank_prefetch w n nl sg d sb oc c i = g_qwt512_rank w n nl sg d sb oc c i) /\
+    (forall c i, i <= len s ->
+       g_qwt512_rank_prefetch_unchecked w nl d sb oc c i = g_qwt512_rank_unchecked w nl d sb oc c i) /\
+    (forall c i, 0 < len s -> c <= maxN s -> i <= len s ->
+       g_qwt512_rank_prefetch_unchecked w nl d sb oc c i = Val (rank_spec s c i)).
+Proof. exact g_qwt512_ctors_rank_prefetch. Qed.
+Print Assumptions C09_source_plain_512.
+Theorem C09_source_eq_rank_256 : forall w s t, width_ok w -> Forall (fun x => x < 2 ^ w) s ->
+  len s < RSQ_MAXN -> qwt_new w 256 s = Val t -> forall c i,
+  g_qwt256_rank_prefetch w (q_n t) (q_n_levels t) (q_sigma t) (qwt_data t) (qwt_sbs t) (qwt_occs t) c i
+  = g_qwt256_rank w (q_n t) (q_n_levels t) (q_sigma t) (qwt_data t) (qwt_sbs t) (qwt_occs t) c i.
+Proof. exact g_qwt256_rank_prefetch_eq_rank. Qed.
+Print Assumptions C09_source_eq_rank_256.
+Theorem C09_source_eq_rank_512 : forall w s t, width_ok w -> Forall (fun x => x < 2 ^ w) s ->
+  len s < RSQ_MAXN -> qwt_new w 512 s = Val t -> forall c i,
+  g_qwt512_rank_prefetch w (q_n t) (q_n_levels t) (q_sigma t) (qwt_data t) (qwt_sbs t) (qwt_occs t) c i
+  = g_qwt512_rank w (q_n t) (q_n_levels t) (q_sigma t) (qwt_data t) (qwt_sbs t) (qwt_occs t) c i.
+Proof. exact g_qwt512_rank_prefetch_eq_rank. Qed.
+Print Assumptions C09_source_eq_rank_512.
